@@ -29,7 +29,7 @@ def rule_instance_state(ctx, prefixes, R="instance-state"):
 # ---- the layers around the mechanisms (client, public API, helpers): rules added after seed round K --------------------------------
 import ast  # noqa: E402
 
-from ..loader import call_attr, unparse  # noqa: E402
+from ..loader import call_attr, unparse, walk_own  # noqa: E402
 from ..rulekit import arg_of, def_value, local_defs, must_facts  # noqa: E402
 
 
@@ -283,3 +283,55 @@ def rule_get_conn_contains(ctx, R):
             bad.append((r, cname))
     ctx.ob(R, fi, (bad[0][0] if bad else fi.node), not bad, f"_get_conn raises {bad[0][1] if bad else ''} past its own handlers: ready() raises instead of returning False, the transactional / "
                                                           "coordination task dies on a retriable condition", text="get-conn-contains-errors")
+
+
+def rule_requests_built_per_call(ctx, R):
+    """A request the client layer sends is BUILT IN THE CALL THAT SENDS IT, from that call's own arguments: the builder object carries the
+    values of one API call (coordinator key and type, topic list), and prepare() picks the version and drops what the version cannot say
+    from those values -- a builder kept in instance state and reused sends the values of an earlier call under the name of this one."""
+    n = 0
+    for q, fi in sorted(ctx.repo.funcs.items()):
+        if not q.startswith("aiokafka.client.AIOKafkaClient."):
+            continue
+        c = None
+        for call in [x for x in walk_own(fi.node) if isinstance(x, ast.Call) and call_attr(x) == "send"]:
+            idx = 1 if unparse(call.func) == "self.send" else 0       # client.send(node, request) / conn.send(request)
+            if len(call.args) <= idx:
+                continue
+            if isinstance(call.args[idx], ast.Call) and unparse(call.args[idx].func).split(".")[-1].endswith("Request"):
+                n += 1          # built in the argument position itself
+                continue
+            if not isinstance(call.args[idx], ast.Name):
+                continue
+            name = call.args[idx].id
+            if name in fi.params():
+                continue            # a forwarding method: the caller built it
+            c = c or ctx.cfg(fi)
+            site = [m for m in c.nodes if m.kind == "call" and m.ast is call]
+            if not site:
+                continue
+            ds = local_defs(c, name)
+            reach = [d for d in ds if site[0] in c.reachable([d], avoid=[x for x in ds if x is not d], exc=False)]
+            n += 1
+
+            def built(v):
+                return isinstance(v, ast.Call) and unparse(v.func).split(".")[-1].endswith("Request")
+            bad = [d for d in reach if not built(def_value(d))]
+            ctx.ob(R, fi, (bad[0] if bad else site[0]), bool(reach) and not bad,
+                   f"{fi.name}: the request handed to send() can be `{unparse(def_value(bad[0]))[:60] if bad else '?'}`, not a request built in this call: it carries the "
+                   f"arguments of whichever call built it", text=f"request-built-here:{fi.name}")
+            if fi.name == "coordinator_lookup" and reach and not bad:
+                ptype, pkey = fi.params()[1], fi.params()[2]
+                ok = True
+                for d in reach:
+                    v = def_value(d)
+                    got = {"coordinator_key": None, "coordinator_type": None}
+                    for i, a in enumerate(v.args[:2]):
+                        got[("coordinator_key", "coordinator_type")[i]] = unparse(a)
+                    for k in v.keywords:
+                        if k.arg in got:
+                            got[k.arg] = unparse(k.value)
+                    ok = ok and got == {"coordinator_key": pkey, "coordinator_type": ptype}
+                ctx.ob(R, fi, site[0], ok, "coordinator_lookup does not build FindCoordinatorRequest(coordinator_key, coordinator_type) from its own two arguments",
+                       text="lookup-request-from-arguments")
+    ctx.anchor(n >= 2, f"requests built and sent by the client layer ({n})")
